@@ -512,12 +512,13 @@ def main(prop, tier, seed, jobs=None, update_baseline=False):
     if tier == "thorough" and xcs:
         from . import xcheck
         ev["coverage"]["xcheck"] = xcheck.merge(xcs)
-        ev["coverage"]["xcheck"]["enforced"] = XCHECK_ENFORCED
+        enforced = prop in XCHECK_ENFORCED
+        ev["coverage"]["xcheck"]["enforced"] = enforced
         for m in ev["coverage"]["xcheck"]["mismatches"]:
             msg = (f"xcheck:{m['function']} path {m['decisions']}", "the symbolic path and CPython disagree on "
                    + "; ".join(f"{d['what']} (symbolic {str(d['symbolic'])[:120]} / CPython {str(d['native'])[:120]})"
                                for d in m["differences"]) + f" for inputs {str(m['inputs'])[:400]}")
-            if XCHECK_ENFORCED:
+            if enforced:
                 checker_err.append(msg)
                 ev["coverage"]["checker_errors"].append(list(map(str, msg)))
                 if status in (0, 2):
@@ -590,8 +591,10 @@ def match_known(known, name, fl):
     return None
 
 
-# a cross-check mismatch is a CHECKER-ERROR (exit 3): switched on once the cross-check was quiet on the unchanged tree
-XCHECK_ENFORCED = True
+# a cross-check mismatch is a CHECKER-ERROR (exit 3) for the properties on whose unchanged tree the cross-check was seen
+# quiet (every comparison artefact found there was turned into a skip rule); for the others it is printed as
+# XCHECK-MISMATCH and recorded in the evidence without touching the exit code, until they have been looked at
+XCHECK_ENFORCED = {"C12", "C19", "C20", "C05", "C06", "C07", "C16", "C17", "C13", "C10", "C15", "C04"}
 
 DROPPED = ["decorators (@attrs/@define fields become typed pre-state; @implementer; @m.input/@m.output/@m.state replaced by "
            "Automat dispatch semantics)", "docstrings", "log.msg/log.err/print/debug calls", "self._timing.add(...)",
